@@ -343,6 +343,17 @@ func mutate(s, op string, n int) string {
 			c = 'a'
 		}
 		return s[:i] + string(c) + s[i+1:]
+	case "prefix": // a proper, non-empty prefix of the text (1 + n mod (len-1) characters)
+		if len(s) < 2 {
+			return s + "x"
+		}
+		return s[:1+n%(len(s)-1)]
+	case "unpad": // the text without its trailing '=' padding and one character less
+		t := strings.TrimRight(s, "=")
+		if len(t) < 2 {
+			return "x"
+		}
+		return t[:len(t)-1]
 	case "upper":
 		return strings.ToUpper(s)
 	case "tail":
